@@ -92,6 +92,8 @@ func runC02(c *Ctx, r *Report) {
 		fns = append(fns, fn)
 	}
 	sortFns(fns)
+	r.Rule("C02/chunk-whole", "what the decode loop appends to the payload is the chunk's sub-slice of the received data as it is", 1)
+	checkChunkAppendedWhole(c, r, "C02/chunk-whole", fns)
 	names := []string{}
 	for _, fn := range fns {
 		names = append(names, shortFn(fn))
